@@ -177,6 +177,10 @@ Definition get_item (base idx : value) (opt : bool) : ev :=
         | VArr _ | VStr _ _ => Err
         | _ => Unspec
         end
+    | VBool _ =>
+        (* map literals may have boolean keys (parser.rs 580-595), so a boolean index into a map is a
+           key lookup; the documentation does not mention it *)
+        match base with VMap _ => Unspec | _ => Err end
     | _ => Err       (* "Only ... string or integer number can be used as index: anything else will be an error" *)
     end
   end.
